@@ -2,7 +2,8 @@
 //! script = [n_res; failure_threshold; success_threshold; interval_ms; timeout_ms; initial_delay_ms;
 //!           strategy + 16 * route,
 //!             strategy (mod 16): 0 FirstAvailable, 1 RoundRobin, 2 PreferHealthy, 3 Custom: last healthy,
-//!                     4 Custom: always Some(1), 5.. Custom: always None;
+//!                     4 Custom: always Some(1), 5 Custom: always None, 6 Random (crate feature `random`),
+//!                     7.. Custom: always None;
 //!             route (div 16, mod 4): how the configuration reaches the wrapper:
 //!                     0 the wrapper builder's setters, 1 HealthCheckConfig::builder()...build() + with_config,
 //!                     2 with_config(decoy values) then every setter, 3 every setter with decoy values then
@@ -15,13 +16,19 @@
 //! The k-th check of resource i answers with the scripted status after sleeping delay_ms (a delay
 //! above the check timeout makes the wrapper time the check out); beyond R checks: Healthy at once.
 //! trace: per op 0: for each resource [status (get_health_details; +100 if get_status(name) disagrees,
-//!        +200 if get_all_statuses disagrees),
+//!        +200 if get_all_statuses disagrees, +400 if the on_health_change callbacks (crate feature `tracing`;
+//!        registered on routes 1-3, the wrapper builder of route 0 has no setter for them) do not replay to that
+//!        status: every callback has old != new, old = the previous callback's new (Unknown at first), the last
+//!        new = the published status; +800 if on_check_failed was not called exactly once per timed-out check),
 //!        consecutive_failures, consecutive_successes, checks started, checks finished];
 //!        per op 1/2: arg ints, the selected resource id or -1.
+use std::sync::atomic::{AtomicUsize, Ordering};
 use std::sync::{Arc, Mutex};
 use std::time::Duration;
+use tower_resilience_core::HealthTriggerable;
 use tower_resilience_healthcheck::{
-    HealthCheckConfig, HealthCheckWrapper, HealthChecker, HealthStatus, SelectionStrategy,
+    HealthCheckConfig, HealthCheckConfigBuilder, HealthCheckWrapper, HealthChecker, HealthStatus,
+    SelectionStrategy,
 };
 use verif_harness::*;
 
@@ -29,6 +36,28 @@ struct Shared {
     table: Vec<Vec<(i128, i128)>>,
     started: Mutex<Vec<i128>>,
     finished: Mutex<Vec<i128>>,
+    // crate features `tracing` / `triggers`: what the callbacks reported
+    last_new: Mutex<Vec<i128>>,      // per resource: `new` of the last on_health_change (3 = Unknown before any)
+    chain_broken: Mutex<Vec<bool>>,  // per resource: a callback with old == new or old != previous new
+    check_failed: Mutex<Vec<i128>>,  // per resource: on_check_failed calls
+    trigger_calls: AtomicUsize,
+}
+
+struct CountingTrigger(Arc<Shared>);
+impl HealthTriggerable for CountingTrigger {
+    fn trigger_unhealthy(&self) {
+        self.0.trigger_calls.fetch_add(1, Ordering::SeqCst);
+    }
+    fn trigger_healthy(&self) {
+        self.0.trigger_calls.fetch_add(1, Ordering::SeqCst);
+    }
+    fn trigger_degraded(&self) {
+        self.0.trigger_calls.fetch_add(1, Ordering::SeqCst);
+    }
+}
+
+fn idx_of(name: &str) -> usize {
+    name[1..].parse().unwrap_or(usize::MAX)
 }
 
 struct Scripted(Arc<Shared>);
@@ -90,7 +119,15 @@ fn run(s: &[i128]) -> Vec<i128> {
     }
     let evs: Vec<(i128, i128)> =
         (0..n_ev).map(|j| (zn(s, 9 + 2 * n * r + 2 * j), zn(s, 9 + 2 * n * r + 2 * j + 1))).collect();
-    let sh = Arc::new(Shared { table, started: Mutex::new(vec![0; n]), finished: Mutex::new(vec![0; n]) });
+    let sh = Arc::new(Shared {
+        table,
+        started: Mutex::new(vec![0; n]),
+        finished: Mutex::new(vec![0; n]),
+        last_new: Mutex::new(vec![3; n]),
+        chain_broken: Mutex::new(vec![false; n]),
+        check_failed: Mutex::new(vec![0; n]),
+        trigger_calls: AtomicUsize::new(0),
+    });
     let rt = paused_rt();
     rt.block_on(async move {
         let strategy = match strat {
@@ -101,6 +138,7 @@ fn run(s: &[i128]) -> Vec<i128> {
                 st.iter().enumerate().filter(|(_, s)| s.is_healthy()).next_back().map(|(i, _)| i)
             })),
             4 => SelectionStrategy::Custom(Arc::new(|_st: &[HealthStatus]| Some(1))),
+            6 => SelectionStrategy::Random,
             _ => SelectionStrategy::Custom(Arc::new(|_st: &[HealthStatus]| None)),
         };
         let mut b = HealthCheckWrapper::<i128, Scripted>::builder();
@@ -109,9 +147,35 @@ fn run(s: &[i128]) -> Vec<i128> {
         }
         let b = b.with_checker(Scripted(sh.clone()));
         let ms = Duration::from_millis;
+        // a config builder carrying the recording callbacks (feature `tracing`) and a trigger (feature `triggers`)
+        let cfgb = || -> HealthCheckConfigBuilder {
+            let (s1, s2) = (sh.clone(), sh.clone());
+            HealthCheckConfig::builder()
+                .on_health_change(move |name: &str, old: HealthStatus, new: HealthStatus| {
+                    let i = idx_of(name);
+                    let mut last = s1.last_new.lock().unwrap();
+                    if i >= last.len() || old == new || last[i] != code(old) {
+                        let mut b = s1.chain_broken.lock().unwrap();
+                        if i < b.len() {
+                            b[i] = true;
+                        }
+                    }
+                    if i < last.len() {
+                        last[i] = code(new);
+                    }
+                })
+                .on_check_failed(move |name: &str, _e: &dyn std::error::Error| {
+                    let i = idx_of(name);
+                    let mut f = s2.check_failed.lock().unwrap();
+                    if i < f.len() {
+                        f[i] += 1;
+                    }
+                })
+                .with_trigger(Arc::new(CountingTrigger(sh.clone())))
+        };
         // values that differ from the scripted ones and from the defaults in every field
         let decoy = || {
-            HealthCheckConfig::builder()
+            cfgb()
                 .interval(ms(interval + 3))
                 .timeout(ms(timeout + 2))
                 .initial_delay(ms(init + 1))
@@ -122,6 +186,7 @@ fn run(s: &[i128]) -> Vec<i128> {
         };
         let w = match route {
             0 => b
+                .with_trigger(Arc::new(CountingTrigger(sh.clone())))
                 .with_interval(ms(interval))
                 .with_timeout(ms(timeout))
                 .with_initial_delay(ms(init))
@@ -131,7 +196,7 @@ fn run(s: &[i128]) -> Vec<i128> {
                 .build(),
             1 => b
                 .with_config(
-                    HealthCheckConfig::builder()
+                    cfgb()
                         .interval(ms(interval))
                         .timeout(ms(timeout))
                         .initial_delay(ms(init))
@@ -159,7 +224,7 @@ fn run(s: &[i128]) -> Vec<i128> {
                     .with_success_threshold(d.success_threshold())
                     .with_selection_strategy(SelectionStrategy::Custom(Arc::new(|_st: &[HealthStatus]| Some(0))))
                     .with_config(
-                        HealthCheckConfig::builder()
+                        cfgb()
                             .interval(ms(interval))
                             .timeout(ms(timeout))
                             .initial_delay(ms(init))
@@ -193,6 +258,21 @@ fn run(s: &[i128]) -> Vec<i128> {
                         }
                         if all.get(i) != Some(&(format!("r{}", i), d.status)) || all.len() != det.len() {
                             c += 200;
+                        }
+                        if route != 0 {
+                            if sh.chain_broken.lock().unwrap()[i] || sh.last_new.lock().unwrap()[i] != code(d.status) {
+                                c += 400;
+                            }
+                            let fin = sh.finished.lock().unwrap()[i] as usize;
+                            let timed_out = (0..fin)
+                                .filter(|&k| {
+                                    let (_, dl) = sh.table[i].get(k).copied().unwrap_or((0, 0));
+                                    dl > 0 && dl > timeout as i128
+                                })
+                                .count() as i128;
+                            if sh.check_failed.lock().unwrap()[i] != timed_out {
+                                c += 800;
+                            }
                         }
                         tr.extend([
                             c,
